@@ -225,10 +225,8 @@ func cborEncodeBuffer(w io.Writer, br *bufio.Reader) error {
 }
 
 func (c *Command) reset() {
-	if c.cmd != nil {
-		if c.cmd.Process == nil {
-			panic("command should always be started")
-		}
+	// The process is nil when the command could not be started
+	if c.cmd != nil && c.cmd.Process != nil {
 		_ = c.cmd.Process.Kill()
 	}
 	*c = Command{
